@@ -228,4 +228,65 @@ example :
 example : ValidFor brightnessCfg (.int 42) := by unfold ValidFor; rfl
 example : wellFormed [.pair 1 9, .pair 1 999, .pair 1 2] = true := by decide
 
+/-! ### the answer of a write request (F75; `putLoop` / `putChars` in HcModel/CharHttp.lean) -/
+
+/-- the loop answers every entry, in order, with a status -/
+theorem putLoop_covers (rs : List PutReq) : ∀ (db : Db) (acc : List RespEntry) (db' : Db) (es : List RespEntry),
+    putLoop db rs acc = (db', some es) →
+      es.map (fun e => (e.aid, e.iid)) = acc.map (fun e => (e.aid, e.iid)) ++ rs.map (fun r => (r.aid, r.iid)) ∧
+      ((∀ e ∈ acc, e.status.isSome) → ∀ e ∈ es, e.status.isSome) := by
+  induction rs with
+  | nil =>
+    intro db acc db' es h
+    simp only [putLoop, Prod.mk.injEq, Option.some.injEq] at h
+    obtain ⟨_, rfl⟩ := h
+    simp
+  | cons r rs ih =>
+    intro db acc db' es h
+    unfold putLoop at h
+    split at h
+    · obtain ⟨h1, h2⟩ := ih _ _ _ _ h
+      refine ⟨by simpa [List.map_append, List.append_assoc] using h1, fun ha => h2 ?_⟩
+      intro e he
+      rcases List.mem_append.mp he with he | he
+      · exact ha e he
+      · simp only [List.mem_singleton] at he; subst he; rfl
+    · split at h
+      · simp at h
+      · obtain ⟨h1, h2⟩ := ih _ _ _ _ h
+        refine ⟨by simpa [List.map_append, List.append_assoc] using h1, fun ha => h2 ?_⟩
+        intro e he
+        rcases List.mem_append.mp he with he | he
+        · exact ha e he
+        · simp only [List.mem_singleton] at he; subst he; rfl
+
+/-- "…and a multi-status answer carries a status for every entry": for every database and every write request, an answer
+    with a body has exactly one entry per entry of the request — same ids, same order, also for ids that are not served
+    and for entries that succeeded — and every one of them carries a status. -/
+theorem put_answer_carries_a_status_for_every_entry (db db' : Db) (rs : List PutReq) (es : List RespEntry)
+    (h : putChars db rs = (db', .body es)) :
+    es.map (fun e => (e.aid, e.iid)) = rs.map (fun r => (r.aid, r.iid)) ∧ ∀ e ∈ es, e.status.isSome := by
+  unfold putChars at h
+  split at h
+  · simp at h
+  · rename_i db'' es' hl
+    split at h
+    · simp at h
+    · simp only [Prod.mk.injEq, PutResp.body.injEq] at h
+      obtain ⟨_, rfl⟩ := h
+      obtain ⟨h1, h2⟩ := putLoop_covers rs db [] db'' es' hl
+      exact ⟨by simpa using h1, h2 (by simp)⟩
+
+/-- F75 before the repair (`putLoopOld`): a good write, an id that is not served and a subscription to a characteristic
+    without event permission in one request — the answer has ONE entry for three. -/
+theorem put_answer_unfixed_refuted :
+    let c (r w e : Bool) : Chr := { cfg := { format := .bool, perms := ⟨r, w, e, false, false⟩, min := .nil, max := .nil,
+                                             updateOnSameValue := false, tcb := none }, value := .bool false, log := [] }
+    let db : Db := [⟨1, 9, c true true true, false⟩, ⟨1, 10, c true false false, false⟩]
+    let rs : List PutReq := [⟨1, 9, .bool true, .null⟩, ⟨1, 999, .bool true, .null⟩, ⟨1, 10, .null, .bool true⟩]
+    ((putLoopOld db rs []).2.map fun es => es.map fun e => (e.aid, e.iid, e.status)) = some [(1, 10, some (-70406))] ∧
+    ((putLoop db rs []).2.map fun es => es.map fun e => (e.aid, e.iid, e.status))
+      = some [(1, 9, some 0), (1, 999, some (-70409)), (1, 10, some (-70406))] := by
+  decide
+
 end Hc.Props.C09
